@@ -193,6 +193,22 @@ fn nt_c09(s: &Stats) -> bool {
     (s.flags.contains("impostor_delivery") || s.flags.contains("impostor_rewards")) && (s.flags.contains("deliver_ok") || s.flags.contains("rewards_ok"))
 }
 
+fn p_c17() -> Profile {
+    let mut p = Profile::base("C17");
+    p.len = (40, 90);
+    p.w_query = 25;
+    p.w_unstake = 16;
+    p.w_withdraw = 14;
+    p.w_submit = 8;
+    p.w_deliver = 8;
+    p.w_stake = 8;
+    p.fail_injection = false;
+    p
+}
+fn nt_c17(s: &Stats) -> bool {
+    s.get("Query") >= 3 && s.get("Withdraw.ok") >= 1 && s.get("Submit.ok") >= 2 && s.flags.contains("repeated_unstake")
+}
+
 pub struct HistSpec {
     pub prop: &'static str,
     pub profile: Profile,
@@ -214,6 +230,8 @@ pub fn hist_spec(prop: &str) -> Option<HistSpec> {
             rule: "(a) pure cases (N, L, amount) over the full 128-bit space, boundary-biased and constructed on rounding boundaries; non-trivial = division remainder != 0 or constructed boundary case; distinct by value hash. (b) stake-heavy histories; non-trivial = a stake/submission at rate != 1 plus a stake on a threshold (minimum, expected_mint_amount, zero-mint guard); distinct by executed-op hash" },
         "C09" => HistSpec { prop: "C09", profile: p_c09(), nontrivial: nt_c09, quick: 300, thorough: 20_000,
             rule: "(a) derivation cases: channel ids over u64, native senders under generated prefixes with 20/32-byte payloads, protocol prefixes, plus an adversarially close second pair; every case is non-trivial, distinct by value hash. (b) histories with impostor deliveries and UpdateConfig changes of channel/staker/collector; non-trivial = an impostor attempt and an authentic accepted delivery in one history" },
+        "C17" => HistSpec { prop: "C17", profile: p_c17(), nontrivial: nt_c17, quick: 400, thorough: 20_000,
+            rule: "(a) synthetic stores: up to 40 batches / 30 packets with ids drawn from small ranges, gaps, powers of two and u64 extremes, all statuses, and up to 20 (start_after, limit>=1, status) walks each over Batches and IbcQueue plus BatchesByIds lists with repeats and unknown ids; non-trivial = a walk of >=3 pages whose status filter skips elements inside a page, or >=3 pages of the packet queue, or an id list mixing existing and unknown ids; distinct by case hash. (b) query-heavy histories in which UnstakeRequests of every user is compared with the model after every step; non-trivial = >=3 query ops, >=2 submitted batches, a repeated unstake and a withdrawal" },
         "C05" => HistSpec { prop: "C05", profile: p_c05(), nontrivial: nt_c05, quick: 800, thorough: 30_000,
             rule: "history of 40-90 unstake/submit/deliver/withdraw-heavy ops; non-trivial = a batch with >=3 requesters delivered with received != expected, >=1 repeated unstake by one account in one batch, >=2 successful withdrawals; distinct by executed-op hash" },
         "C06" => HistSpec { prop: "C06", profile: p_c06(), nontrivial: nt_c06, quick: 800, thorough: 30_000,
@@ -241,6 +259,9 @@ pub fn check_history(prop: &str, thorough: bool, seed: u64) -> Option<Report> {
         "C04" => {
             rep.absorb(crate::props_pure::check_c04_pure(if thorough { 20_000_000 } else { 400_000 }, seed));
             rep.assumptions.push("pure cases whose reference result exceeds 128 bits are skipped (the property says 'representable')".into());
+        }
+        "C17" => {
+            rep.absorb(crate::props_c17::check_c17_pages(if thorough { 100_000 } else { 4_000 }, seed));
         }
         "C09" => {
             rep.absorb(crate::props_pure::check_c09_pure(if thorough { 5_000_000 } else { 100_000 }, seed));
